@@ -18,3 +18,8 @@ def run(name, prop, tier, seed, scratch, root):
 def standin_conformance(prop, tier, seed, scratch, root):
     import conformance
     return conformance.run(prop, tier, seed, scratch, root)
+
+
+def standin_search(prop, tier, seed, scratch, root):
+    import conformance
+    return conformance.search(prop, tier, seed, scratch, root)
